@@ -1,5 +1,6 @@
 #!/bin/bash
 # benigncheck.sh <patch> : apply a behaviour-preserving patch to /repo, run ALL checks (quick), report any alarm, undo
+export ADLT_VERIF_EVIDENCE_DIR=/tmp/adlt-verif-scratch-evidence
 P="$1"
 cd /repo || exit 2
 if ! git diff --quiet; then echo "ERROR: /repo has uncommitted changes"; exit 2; fi
